@@ -15,6 +15,18 @@ from linear_operator.utils.getitem import _compute_getitem_size
 from linear_operator.utils.memoize import cached
 
 
+class _ZeroRepresentationTree(object):
+    """Rebuilds a ZeroLinearOperator (which is defined by its sizes alone) from an empty tensor representation."""
+
+    def __init__(self, linear_op: "ZeroLinearOperator"):
+        self._sizes = tuple(linear_op.sizes)
+        self._dtype = linear_op.dtype
+        self._device = linear_op.device
+
+    def __call__(self, *flattened_representation):
+        return ZeroLinearOperator(*self._sizes, dtype=self._dtype, device=self._device)
+
+
 class ZeroLinearOperator(LinearOperator):
     """
     Special LinearOperator representing zero.
@@ -46,6 +58,13 @@ class ZeroLinearOperator(LinearOperator):
 
     def _bilinear_derivative(self, left_vecs: Tensor, right_vecs: Tensor) -> Tuple[Optional[Tensor], ...]:
         raise RuntimeError("Backwards through a ZeroLinearOperator is not possible")
+
+    def representation(self) -> Tuple[torch.Tensor, ...]:
+        # The constructor arguments are sizes, not tensors: the tensor representation is empty
+        return tuple()
+
+    def representation_tree(self) -> _ZeroRepresentationTree:
+        return _ZeroRepresentationTree(self)
 
     def _diagonal(self: Float[LinearOperator, "... M N"]) -> Float[torch.Tensor, "... N"]:
         shape = self.shape
